@@ -84,8 +84,12 @@ class MemWriter:
             raise ConnectionResetError('peer gone')
         n = conn.sched.drain(conn.cid)
         conn.drains += 1
-        for _ in range(n):
-            await asyncio.sleep(0)
+        conn.draining = True
+        try:
+            for _ in range(n):
+                await asyncio.sleep(0)
+        finally:
+            conn.draining = False
         if conn.broken:
             raise ConnectionResetError('peer gone')
 
@@ -165,6 +169,7 @@ class Conn:
         self.eof_sent = False
         self.tls_started = 0
         self.drains = 0
+        self.draining = False
         self.write_after_close = 0
         self.task: asyncio.Task[None] | None = None
         self.task_exc: BaseException | None = None
